@@ -88,7 +88,10 @@ theorem escapes_discus : Kind.OverflowError ∈ Gen.cfg_discus.H ∨
   · exact Or.inr (parseDiscus_escapes Gen.cfg_discus _ (mem_missingKinds.mpr ⟨by simp [neededDiscus], h⟩))
 
 example : parseDiscus Gen.cfg_discus
-    { lines := [{ words := [{ kw := .cell }], cwords := [{ kw := .cell }] }] } = .ok := by decide
+    { lines := [{ words := [{ kw := .cell }], cwords := [{ kw := .cell }] }, { words := [{ kw := .atoms }], cwords := [{ kw := .atoms }] }] } = .ok := by decide
+/-- a header without an `atoms` record is rejected (repair 56ab7f4) -/
+example : parseDiscus Gen.cfg_discus
+    { lines := [{ words := [{ kw := .cell }], cwords := [{ kw := .cell }] }] } = .err .SFE := by decide
 example : parseDiscus Gen.cfg_discus
     { lines := [{ words := [{ kw := .generator }], cwords := [{ kw := .generator }] }] } = .err .NotImpl := by decide
 example : parseDiscus Gen.cfg_discus { lines := [] } = .err .SFE := by decide
